@@ -1,0 +1,134 @@
+//go:build verif
+
+package evm
+
+// Contracts for the deductive checker in /verif (comment-only; compiled only with -tags verif).
+// C07, up-front deduction on the Ethereum route: EthGasConsumeDecorator (AnteHandle, deductFee), CanTransferDecorator,
+// EthMempoolFeeDecorator. Lib specs: /verif/specs/c07, /verif/specs/c07d. Shares the keeper-interface declarations of
+// zz_contracts_c07_verif.go (evmk_params, evmk_chainid, evmk_basefee_nil / evmk_basefee_val).
+
+/*@
+alias KeeperT github.com/haqq-network/haqq/x/evm/keeper.Keeper
+alias Msgs []github.com/cosmos/cosmos-sdk/types.Msg
+alias TxData github.com/haqq-network/haqq/x/evm/types.TxData
+
+// the EVM keeper behind the interface is x/evm/keeper.Keeper: calls are checked against (and use) its verified contract
+func (EVMKeeper).DeductTxCostsFromUserBalance
+    dispatch (*github.com/haqq-network/haqq/x/evm/keeper.Keeper).DeductTxCostsFromUserBalance
+
+// ------------------------------------------------------------------ deductFee
+// Zero fees deduct nothing. Otherwise exactly `fees` move from the payer to the fee collector (ledger entry + balance move by
+// DeductTxCostsFromUserBalance, called with exactly these fees and the payer's address); errors propagate and then nothing
+// was paid. Reward claiming before the deduction never lowers the payer's balance, so the payer ends up at most `fees` poorer.
+func (EthGasConsumeDecorator).deductFee
+    let K = dyn(egcd.evmKeeper, *KeeperT)
+    let payer = acc_of_bytes(addr_bytes(bytes_to_address(feePayer)))
+    let claimant = acc_of_bytes(feePayer)
+    let collector = acc_of_module("fee_collector")
+    let bond = bond_denom(egcd.stakingKeeper, ctx)
+    requires keepers: egcd.bankKeeper != nil && egcd.distributionKeeper != nil && egcd.stakingKeeper != nil
+    requires evmkeeper: isdyn(egcd.evmKeeper, *KeeperT) && K != nil && K.bankKeeper != nil && K.accountKeeper != nil
+    modifies bank_bal, bank_cache, fee_paid
+    call ClaimStakingRewardsIfNecessary requires args: addr == feePayer && amount == old(fees) && ctx == old(ctx)
+    call DeductTxCostsFromUserBalance requires args: fees == old(fees) && from == bytes_to_address(feePayer) && ctx == old(ctx)
+    ensures zero: ciszero(fees) ==> result == nil && bank_bal == old(bank_bal) && fee_paid == old(fee_paid)
+    ensures paid: !ciszero(fees) && result == nil ==> fee_paid == paid_add(old(fee_paid), collector, payer, fees)
+    ensures failed: result != nil ==> fee_paid == old(fee_paid)
+    // success means the deduction call was made and succeeded
+    ensures deducted: !ciszero(fees) && result == nil ==> ret(DeductTxCostsFromUserBalance, 1, 0) == nil
+    // when the balance in the staking denomination covers the fees nothing is claimed: the balances change by exactly the move
+    ensures exact: !ciszero(fees) && result == nil && fees[bond] != 0 && old(bank_bal)[claimant][bond] >= 0 && old(bank_bal)[claimant][bond] >= fees[bond]
+            ==> bank_bal == bal_move(old(bank_bal), payer, collector, fees)
+    // in general (rewards may have been claimed first) the payer loses at most the fees
+    ensures atmost: claimant == payer && cnonneg(fees) ==> forall d string :: bank_bal[payer][d] >= old(bank_bal)[payer][d] - fees[d]
+@*/
+
+/*@
+// ------------------------------------------------------------------ EthGasConsumeDecorator.AnteHandle
+// tx data / paying account of an Ethereum message object, fixed for the duration of the handler (see `stable`)
+uf msg_td(m int) TxData
+uf msg_payer(m int) AccId
+// fee of message m at base fee bf: gas limit x effective gas price, in the EVM denomination
+specfunc MsgFee(m int, denom string, bf int) Coins = cone(denom, txd_effprice(msg_td(m), bf) * txd_gas(msg_td(m)))
+// the fee ledger after the first i messages were charged: every message adds exactly its fee, paid by its own sender to the
+// fee collector
+ghost func PaidAfter(l Ledger, msgs Msgs, i int, denom string, bf int) Ledger
+    def ite(i <= 0, l, paid_add(PaidAfter(l, msgs, i-1, denom, bf), acc_of_module("fee_collector"), msg_payer(msgs[i-1]), MsgFee(msgs[i-1], denom, bf)))
+// gas wanted by the first i messages: the sum of the gas limits, each clamped to max when `clamp`
+ghost func GasWanted(msgs Msgs, i int, clamp bool, max int) int
+    def ite(i <= 0, 0, GasWanted(msgs, i-1, clamp, max) + ite(clamp && txd_gas(msg_td(msgs[i-1])) > max, max, txd_gas(msg_td(msgs[i-1]))))
+// the lowest priority of the first i messages
+ghost func MinPrio(msgs Msgs, i int, bfnil bool, bf int) int
+    def ite(i <= 0, 9223372036854775807, imin(MinPrio(msgs, i-1, bfnil, bf), txd_priority(msg_td(msgs[i-1]), bfnil, bf)))
+
+// the go-ethereum chain config built from the stored one is a new object (never nil)
+alias EvmChainConfig github.com/haqq-network/haqq/x/evm/types.ChainConfig
+alias BigInt math/big.Int
+axiom pure_chaincfg_eth: forall cc EvmChainConfig :: forall id *BigInt :: chaincfg_eth(cc, id) != nil
+
+// a zero fee leaves the ledger as it is
+lemma PaidAddZero(l Ledger, to AccId, from AccId, d string)
+    ensures paid_add(l, to, from, cone(d, 0)) == l
+
+func (EthGasConsumeDecorator).AnteHandle
+    params egcd, c, t, sim, next
+    let K = dyn(egcd.evmKeeper, *KeeperT)
+    let p = evmk_params(egcd.evmKeeper, c)
+    let denom = p.EvmDenom
+    let cfg = chaincfg_eth(p.ChainConfig, evmk_chainid(egcd.evmKeeper))
+    let london = !evmk_basefee_nil(egcd.evmKeeper, c, cfg)
+    let bf = ite(london, evmk_basefee_val(egcd.evmKeeper, c, cfg), 0)
+    let msgs = tx_msgs(t)
+    let n = len(tx_msgs(t))
+    let recheck = ctx_isrecheck(c)
+    let clamp = ctx_ischeck(c) && egcd.maxGasWanted != 0
+    let G = GasWanted(tx_msgs(t), len(tx_msgs(t)), ctx_ischeck(c) && egcd.maxGasWanted != 0, egcd.maxGasWanted)
+    let P = MinPrio(tx_msgs(t), len(tx_msgs(t)), evmk_basefee_nil(egcd.evmKeeper, c, cfg), bf)
+    requires keepers: egcd.bankKeeper != nil && egcd.distributionKeeper != nil && egcd.stakingKeeper != nil && t != nil
+    requires evmkeeper: isdyn(egcd.evmKeeper, *KeeperT) && K != nil && K.bankKeeper != nil && K.accountKeeper != nil
+    // messages come from the tx decoder (non-nil pointers); From was set by EthSigVerificationDecorator (never empty)
+    requires ptrs: forall k int :: 0 <= k && k < n && typeis(msgs[k], "*MsgEthTx") ==> unbox(msgs[k], "*MsgEthTx") != nil && unbox(msgs[k], "*MsgEthTx").From != ""
+    // ... and passed ValidateBasic (txd_wf); a dynamic-fee tx is only valid once London is active
+    requires wf: forall k int :: 0 <= k && k < n && typeis(msgs[k], "*MsgEthTx") && unpack_ok(unbox(msgs[k], "*MsgEthTx").Data)
+             ==> txd_wf(unpack_td(unbox(msgs[k], "*MsgEthTx").Data)) && (txd_dynamic(unpack_td(unbox(msgs[k], "*MsgEthTx").Data)) ==> london)
+    // message objects are not mutated while this handler runs: tx data and sender of a message object are fixed
+    requires stable: forall m int :: typeis(m, "*MsgEthTx") ==> msg_td(m) == unpack_td(unbox(m, "*MsgEthTx").Data)
+             && msg_payer(m) == acc_of_bytes(addr_bytes(hex_addr(unbox(m, "*MsgEthTx").From)))
+    // uint64 addition is modelled without wrap-around: the sum of the gas limits fits (see REPORT, observation O1)
+    requires nowrap: GasWanted(msgs, n, false, 0) <= 18446744073709551615
+    modifies bank_bal, bank_cache, fee_paid
+    // every deduction is for the message's own sender, for exactly the coins VerifyFee returned for its tx data at the current base fee
+    call deductFee requires payer: feePayer == addr_bytes(hex_addr(msgEthTx.From)) && fees == MsgFee(msg, p.EvmDenom, bf) && ctx == c
+    call VerifyFee requires args: txData == msg_td(msg) && denom == p.EvmDenom && (baseFee != nil) == london && (baseFee != nil ==> *baseFee == bf) && isCheckTx == ctx_ischeck(c)
+    call next requires same: tx == t && simulate == sim
+    // ReCheckTx: nothing is deducted, the context only gets a gas meter with limit 0
+    call next requires recheck: recheck ==> fee_paid == old(fee_paid) && bank_bal == old(bank_bal) && ctx == ctx_with_gasmeter(c, inf_gas_meter(0))
+    // otherwise `next` runs only if every message is an Ethereum tx whose fee cap covers the base fee ...
+    call next requires eth: !recheck ==> forall k int :: 0 <= k && k < n ==> typeis(msgs[k], "*MsgEthTx") && unpack_ok(unbox(msgs[k], "*MsgEthTx").Data)
+             && (london ==> txd_feecap(msg_td(msgs[k])) >= bf)
+    // ... every message's fee has been paid by its own sender to the fee collector, and nothing else has ...
+    call next requires deducted: !recheck ==> fee_paid == PaidAfter(old(fee_paid), msgs, n, denom, bf)
+    // ... the gas wanted fits into the block ...
+    call next requires gas: !recheck ==> G <= block_gas_limit(c)
+    // ... and the new context is the old one with a gas meter of limit == gas wanted and the minimum priority
+    call next requires newctx: !recheck ==> ctx == ctx_with_priority(ctx_with_gasmeter(c, inf_gas_meter(G)), P)
+    // (call ordinals follow the engine's exploration order: the ReCheckTx call of `next` is the second one it reaches)
+    // the out-of-gas rejection is raised only when the gas wanted really exceeds the block gas limit (equality is accepted)
+    call Wrapf requires gas_reason: format == "tx gas (%d) exceeds block gas limit (%d)" ==> G > block_gas_limit(c)
+    ensures recheck_pass: recheck ==> result.0 == ret(next, 2, 0) && result.1 == ret(next, 2, 1)
+    ensures rejected_type: !recheck && (exists k int :: 0 <= k && k < n && !(typeis(msgs[k], "*MsgEthTx") && unpack_ok(unbox(msgs[k], "*MsgEthTx").Data))) ==> result.1 != nil && result.0 == c
+    ensures rejected_feecap: !recheck && london && (exists k int :: 0 <= k && k < n && typeis(msgs[k], "*MsgEthTx") && txd_feecap(msg_td(msgs[k])) < bf) ==> result.1 != nil && result.0 == c
+    ensures rejected_gas: !recheck && G > block_gas_limit(c) ==> result.1 != nil && result.0 == c
+    // every way out is either the result of `next`, or an error with the unchanged context after the fees of a PREFIX of the
+    // messages were deducted (nothing after the failing message)
+    ensures outcome: recheck || (result.0 == ret(next, 1, 0) && result.1 == ret(next, 1, 1))
+             || (result.1 != nil && result.0 == c && exists j int :: 0 <= j && j <= n && fee_paid == PaidAfter(old(fee_paid), msgs, j, denom, bf))
+    loop 1 invariant idx: 0 <= #i && #i <= n && !recheck
+    loop 1 invariant consts: evmDenom == denom && (baseFee != nil) == london && (baseFee != nil ==> *baseFee == bf)
+    loop 1 invariant eth: forall k int :: 0 <= k && k < #i ==> typeis(msgs[k], "*MsgEthTx") && unpack_ok(unbox(msgs[k], "*MsgEthTx").Data)
+             && (london ==> txd_feecap(msg_td(msgs[k])) >= bf)
+    loop 1 invariant deducted: fee_paid == PaidAfter(old(fee_paid), msgs, #i, denom, bf)
+    loop 1 invariant gas: gasWanted == GasWanted(msgs, #i, clamp, egcd.maxGasWanted)
+    loop 1 invariant prio: minPriority == MinPrio(msgs, #i, !london, bf)
+    loop 1 back use PaidAddZero(PaidAfter(old(fee_paid), msgs, #i, denom, bf), acc_of_module("fee_collector"), msg_payer(msgs[#i]), denom)
+@*/
